@@ -43,6 +43,31 @@ Proof.
 Qed.
 
 
+Lemma skipn_skipn' {A} n : forall m (l : list A), skipn n (skipn m l) = skipn (m + n) l.
+Proof.
+  intros m. induction m as [|m IH]; intros l; [reflexivity|].
+  destruct l as [|x l]; cbn [skipn plus]; [destruct n; reflexivity|apply IH].
+Qed.
+
+Lemma slice_app {A} (l : list A) lo mid hi :
+  lo <= mid -> mid <= hi ->
+  firstn (mid - lo) (skipn lo l) ++ firstn (hi - mid) (skipn mid l) = firstn (hi - lo) (skipn lo l).
+Proof.
+  intros H1 H2.
+  replace (skipn mid l) with (skipn (mid - lo) (skipn lo l)).
+  2: { rewrite skipn_skipn'. f_equal. lia. }
+  replace (hi - lo) with ((mid - lo) + (hi - mid)) by lia.
+  generalize (skipn lo l) as m. generalize (mid - lo) as n. generalize (hi - mid) as k.
+  intros k n. induction n as [|n IH]; intros m; [reflexivity|].
+  destruct m as [|x m]; cbn [firstn skipn app plus].
+  - rewrite firstn_nil. destruct k; reflexivity.
+  - f_equal. apply IH.
+Qed.
+
+Lemma slice_self {A} (l : list A) : firstn (length l - 0) (skipn 0 l) = l.
+Proof. cbn [skipn]. rewrite Nat.sub_0_r. apply firstn_all. Qed.
+
+
 (* blocks ordered and disjoint, starting at or after (i, j), ending at or before (ei, ej) *)
 Fixpoint blocks_chain (l : list block) (i j ei ej : nat) : Prop :=
   match l with
